@@ -73,6 +73,19 @@ public:
     return rules;
   }
   
+  /// Look up the given rule name in this scope and its parents, returning the
+  /// rule or null if not found.
+  Rule* lookupRule(StringRef name) const {
+    auto it = rules.find(name);
+    if (it != rules.end())
+      return it->second;
+
+    if (parent)
+      return parent->lookupRule(name);
+
+    return nullptr;
+  }
+
   /// Insert a binding into the set.
   void insertBinding(StringRef name, StringRef value) {
     entries[name] = value;
